@@ -18,7 +18,7 @@ func init() {
 		{"MaxGetEntriesAllowed", constKernel(h, "MaxGetEntriesAllowed", "maxGetEntriesAllowed", intLit)},
 		{"parseGetEntriesRange", funcKernel(h, "parseGetEntriesRange", "parseGetEntriesRange",
 			"(start_ end_ maxRange_ : Int) (align : Bool)", "Option (Int × Int)",
-			Spec{Kind: "i64", Lazy: true, Ret: "errlast", InputCalls: []string{"strconv.ParseInt"}, Ignore: ctfeIgnore,
+			Spec{Kind: "i64", Lazy: true, Inline: true, Ret: "errlast", InputCalls: []string{"strconv.ParseInt"}, Ignore: ctfeIgnore,
 				Repl: map[string]string{"*alignGetEntries": "align"}})},
 		{"getEntriesCount", fieldValueKernel(h, "getEntries", "trillian.GetLeavesByRangeRequest", "Count", "getEntriesCount", "(start_ end_ : Int)", "Int",
 			Spec{Kind: "i64"})},
